@@ -1,7 +1,7 @@
 /-
   Driver ops of C20 (trace acceptance, tie A).
 
-  `["C20.trace", {"fixed": b, "coreWatched": b, "orchShielded": b, "spawnSwept": b, "stopSwept": b, "deplEscalates": b, "E": n, "W": n, "D": n, "C": n, "H": n}, [[tick, name, args…], …]]`
+  `["C20.trace", {"fixed": b, "coreWatched": b, "orchShielded": b, "spawnSwept": b, "stopSwept": b, "deplEscalates": b, "orchSwept": b, "E": n, "W": n, "D": n, "C": n, "H": n}, [[tick, name, args…], …]]`
      tick  = virtual time of the segment in 1/64 s; the driver inserts `delay (tick - now)` before it
      label = ["setStopFlag"] | ["scStartupBegin"] | ["scStartupEnd", o] | ["setStarted"] | ["ready"]
            | ["scWake"] | ["scWaitRootsEnd"] | ["scCut"] | ["scStopCore"] | ["scCoreStopped"] | ["scCleanupEnd", o]
@@ -114,6 +114,7 @@ def obsOf? (xs : List Json) : Option Obs :=
   | [.str "orphanEnd"] => some (.lab .orphanEnd)
   | [.str "act", a] => (actorOf? a).map (fun a => .lab (.act a))
   | [.str "orchAbandon"] => some (.lab .orchAbandon)
+  | [.str "orchCrash"] => some (.lab .orchCrash)
   | [.str "spawnCancel"] => some (.lab .spawnCancel)
   | [.str "stopCancel"] => some (.lab .stopCancel)
   | [.str "hungFail"] => some (.lab .hungFail)
@@ -196,7 +197,8 @@ def applyObs (cfg : Cfg) (s : State) : Obs → Except String State
 def replay (cfg : Cfg) (s : State) (i : Nat) : List Json → Option Json
   | [] => some (ok (Json.mkObj [("accepted", .bool true), ("n", .num i), ("truncated", .bool s.abandoned), ("final", stateJson cfg s)]))
   | entry :: rest => do
-    -- (historical variants) the run has left the model (`orchAbandon` C20-F8, `spawnCancel` C20-F10, `stopCancel` C20-F11): the
+    -- the run has left the model (historical variants: `orchAbandon` C20-F8, `spawnCancel` C20-F10, `stopCancel` C20-F11; the current
+    -- tree: `orchCrash`, the orchestrator's own failure, open finding C20-F12): the
     -- model does not describe the code any further; the comparison stops here and says so
     if s.abandoned then
       some (ok (Json.mkObj [("accepted", .bool true), ("n", .num i), ("truncated", .bool true), ("final", stateJson cfg s)]))
@@ -227,12 +229,13 @@ def cfgOf? (j : Json) : Option Cfg := do
   let sp ← jBool? (← jField? j "spawnSwept")
   let ss ← jBool? (← jField? j "stopSwept")
   let de ← jBool? (← jField? j "deplEscalates")
+  let os ← jBool? (← jField? j "orchSwept")
   let e ← jNat? (← jField? j "E")
   let w ← jNat? (← jField? j "W")
   let d ← jNat? (← jField? j "D")
   let c ← jNat? (← jField? j "C")
   let h ← jNat? (← jField? j "H")
-  pure { fixed := fixed, coreWatched := cw, orchShielded := sh, spawnSwept := sp, stopSwept := ss, deplEscalates := de, E := e, W := w, D := d, C := c, H := h }
+  pure { fixed := fixed, coreWatched := cw, orchShielded := sh, spawnSwept := sp, stopSwept := ss, deplEscalates := de, orchSwept := os, E := e, W := w, D := d, C := c, H := h }
 
 def handle : DrvHandler := fun op args =>
   match op, args with
